@@ -18,6 +18,10 @@ says; its final observation is judged by the same predicate (`spec_model`).
 * as membership in the model's envelope otherwise (stop / cancel / both after k
   yields): the observation must satisfy every relation the theorems prove of ALL
   final model states (that is `spec`, including "no skipped job without Stop").
+* RUNNER cases (`input.via` = runner-v3 / runner-v2): the same observation taken on a worker group
+  built by the runner's public constructor (Workers != WorkerQueueLength), one job = one batch of the
+  check pipeline; the model is the same with `maxWorkers := Workers` — the bound must hold for the
+  group as the runner builds it.
 * TRACE cases (`impl.events`, recorded through the `verif` hooks of pkg/util/worker.go by
   harness/c14_trace_test.go): exact refinement check.  The log must be — in some reordering that keeps
   every goroutine's order, the order of the events logged under `wg.mu`, and real time as far as the
@@ -322,6 +326,10 @@ def handle (input impl : Json) : R Reply := do
     (if runModel then ["model-run"] else ["model-skipped-large"]) ++
     (if deterministic then ["exact-compare"] else ["envelope-compare"]) ++
     (if stuck then ["stuck"] else []) ++
+    (match fieldD input "via" (.str "") with
+     | .str "" => []
+     | .str v => [s!"via:{v}"] ++ (if decide (got.maxConc = workers) then ["runner-workers-saturated"] else [])
+     | _ => []) ++
     (if traced then [if traceGood then "trace-accepted" else "trace-rejected"] else []) ++
     (if traced && tv.backtracks > 0 then ["trace-reordered-with-backtracking"] else []) ++
     (if traced && tv.nodes > 20 * evs.length then ["trace-search-heavy"] else []) ++
